@@ -104,6 +104,8 @@ def selftest_units(tier, seed):
 # ---------------------------------------------------------------- one unit
 
 class Acc(object):
+    CAP = 5
+
     def __init__(self):
         self.evals = 0
         self.keys = set()
@@ -116,7 +118,7 @@ class Acc(object):
         self.log = prng.Log()
 
     def vio(self, sig, case, detail):
-        if len(self.violations) < 5:
+        if len(self.violations) < self.CAP:
             self.violations.append({'sig': sig, 'case': case, 'detail': detail[:1500]})
 
     def result(self):
@@ -461,6 +463,17 @@ SENTINEL_SPEC = [{'s': 's'}, 1, {'m': [[{'s': 'k'}, [None, True]]]}]
 def gen_sequence(rng):
     ops = []
     n = rng.choice((2, 3, 4, 6, 8))
+    if rng.random() < 0.3:
+        # values that are equal in Python but are different MessagePack values, encoded one after the other
+        fam = rng.choice(([1, True, {'f': '3ff0000000000000'}], [0, False, {'f': '0000000000000000'}],
+                          [{'s': ''}, {'b': ''}], [{'s': 'ab'}, {'b': '6162'}], [2, {'f': '4000000000000000'}]))
+        rng.shuffle(fam)
+        shape = rng.randrange(3)
+        for k in fam:
+            spec = {'m': [[k, {'s': 'v'}]]} if shape == 0 else ([k, k] if shape == 1 else {'m': [[{'s': 'k'}, k]]})
+            ops.append({'op': 'enc', 'spec': spec, 'api': rng.choice(('dumps', 'pack'))})
+            if rng.random() < 0.5:
+                ops.append({'op': 'dec', 'spec': spec, 'formats': []})
     for i in range(n):
         x = rng.random()
         small = values.rand_value(rng, 3, [rng.choice((3, 8, 20))])
@@ -497,12 +510,30 @@ def gen_sequence(rng):
     return ops
 
 
+def fresh_codec():
+    """Every unit (and every replay) starts from a freshly executed codec module, so that a unit is a self-contained
+    history: whatever state the codec keeps between calls was built inside the unit and is rebuilt by its replay."""
+    import importlib
+    importlib.reload(U)
+
+
 def run_unit(unit):
+    fresh_codec()
+    res = _run_unit(unit)
+    if unit.get('kind') not in ('case', 'sequences'):
+        for v in res['violations']:
+            # if the single value does not reproduce on its own, the history that led to it does
+            v['case'] = dict(v['case'], _unit=unit)
+    return res
+
+
+def _run_unit(unit):
     acc = Acc()
     kind = unit['kind']
     if kind == 'sequences':
         for i in range(unit['first'], unit['first'] + unit['count']):
             ops = gen_sequence(prng.rng('c14-seq', unit['seed'], i))
+            fresh_codec()
             run_sequence(acc, ops)
             if i == unit['first']:
                 acc.samples.append({'kind': 'sequence', 'run': i, 'ops': ops[:6]})
@@ -592,17 +623,36 @@ def run_unit(unit):
 
 # ---------------------------------------------------------------- replay / shrink
 
-def replay_case(case):
+def replay_case(case, expect=None):
+    fresh_codec()
+    unit = case.get('_unit')
+    vios = _replay_case({k: v for k, v in case.items() if k != '_unit'})
+    if not vios and unit is not None:
+        # history dependent: replay the whole unit from a fresh codec, keeping every violation it meets
+        fresh_codec()
+        Acc.CAP = 100000
+        try:
+            found = _run_unit(unit)['violations']
+        finally:
+            Acc.CAP = 5
+        if expect is not None and any(v['sig'] == expect for v in found):
+            found = [v for v in found if v['sig'] == expect][:1]
+        vios = [{'sig': v['sig'], 'detail': '(only reproducible as part of its unit %r) ' % (unit,) + v['detail']}
+                for v in found[:20]]
+    return vios
+
+
+def _replay_case(case):
     acc = Acc()
     kind = case['kind']
     if kind == 'sequence':
         run_sequence(acc, case['ops'], case)
         return acc.violations
     if kind == 'firstbyte':
-        r = run_unit({'kind': 'firstbytes'})
+        r = _run_unit({'kind': 'firstbytes'})
         return [v for v in r['violations'] if v['case'].get('byte') == case['byte']]
     if kind == 'range':
-        r = run_unit({'kind': 'range'})
+        r = _run_unit({'kind': 'range'})
         return [v for v in r['violations'] if v['case'] == case]
     spec = case['spec']
     v = values.build(spec)
